@@ -99,3 +99,22 @@ Fixpoint bad_indices {A} (ok : A -> bool) (l : list A) (i : nat) : list nat :=
   | [] => []
   | x :: r => if ok x then bad_indices ok r (S i) else i :: bad_indices ok r (S i)
   end.
+
+(* ---- chain-side correspondence: real getAnchorsNew / findAncestor ---- *)
+(** (asking chain ids by height, answering main chain ids by height, extra anchors appended,
+    observed anchor list, observed lastNo, observed ancestor height (-1 none), observed id) *)
+Definition acase : Type := list N * list N * list N * list N * N * Z * N.
+Fixpoint lN_eqb (a b : list N) : bool :=
+  match a, b with
+  | [], [] => true
+  | x :: r, y :: s => (x =? y)%N && lN_eqb r s
+  | _, _ => false
+  end.
+Definition anchor_case_ok (c : acase) : bool :=
+  let '(lc, rc, extra, obs_anchors, obs_last, obs_no, obs_id) := c in
+  lN_eqb (anchor_hashes lc ++ extra) obs_anchors
+  && (last_anchor lc =? obs_last)%N
+  && match find_ancestor rc obs_anchors with
+     | Some (h, no) => (Z.of_N no =? obs_no)%Z && (h =? obs_id)%N
+     | None => (obs_no =? -1)%Z
+     end.
